@@ -154,7 +154,10 @@ class Con:
         """closed version as (a', b') meaning a'.x <= b' ; delta>0 relaxes, delta<0 tightens (scaled by |a|_1)"""
         if not any(self.a):
             # zero row: no margin to speak of, keep its exact truth value (0 <= 0 or 0 <= -1)
-            holds = (0 > self.b) if self.strict else (0 <= self.b)
+            if delta >= 0:
+                holds = (0 >= self.b) if self.strict else (0 <= self.b)      # closure (reported-region convention)
+            else:
+                holds = (0 > self.b) if self.strict else (0 <= self.b)
             return (list(self.a), Fraction(0) if holds else Fraction(-1))
         m = delta * l1(self.a)
         if self.strict:
